@@ -235,7 +235,11 @@ pub fn worker(tier: &str, seed: u64, from: u64, to: u64, _extra: &[String]) -> A
     let mut agg = Agg::default();
     let scratch = world_f::scratch_root();
     let _ = std::fs::create_dir_all(&scratch);
+    let progress_file = std::env::var("VERIF_WORKER_OUT").unwrap_or_default();
     for i in from..to {
+        if !progress_file.is_empty() {
+            runner::note_progress(&progress_file, i);
+        }
         let s = runner::run_seed(seed, i);
         match run_tree(s, thorough, &scratch) {
             Err(e) => agg.errors.push(format!("tree {} seed {}: {}", i, s, e)),
